@@ -99,6 +99,20 @@ fn vp_native_from_env_matrix_body() {
             cases += 1; crate::verif_native_watchdog::progress();
         }
     } }
+    // entries and hosts that are addresses: an IPv6 literal is written in brackets in the list as in the URL, an IPv4 literal as it is;
+    // an entry is compared as a whole (nothing is cut off at a colon)
+    for list in ["[::1]", "[::1],corp.test", "corp.test, [::1]", "127.0.0.1", "[2001:db8::1]", ""] {
+        clear();
+        std::env::set_var("all_proxy", "http://p1.test:1");
+        std::env::set_var("no_proxy", list);
+        let s = ProxySettings::from_env();
+        for host in ["[::1]", "127.0.0.1", "[2001:db8::1]", "[2001:db8::2]", "corp.test", "h.test"] {
+            let bypassed = list.split(',').any(|e| { let e = e.trim().trim_start_matches('.').to_lowercase(); !e.is_empty() && e == host });
+            let got = s.for_url(&Url::parse(&format!("http://{}:8080/x", host)).unwrap()).is_some();
+            assert_eq!(got, !bypassed, "NO_PROXY={:?} host {}", list, host);
+            cases += 1; crate::verif_native_watchdog::progress();
+        }
+    }
     clear();
     std::env::set_var("all_proxy", "http://p1.test:1"); std::env::set_var("no_proxy", "*");
     assert!(ProxySettings::from_env().for_url(&Url::parse("http://h.test/").unwrap()).is_none());
